@@ -29,6 +29,7 @@ type c14Case struct {
 	Syncs  int               `json:"syncs"`
 	Held   string            `json:"held,omitempty"` // letter of a replica set that is Terminating, held by a finalizer
 	Flip   string            `json:"flip,omitempty"` // the pause reason of the canary replica set changes to this before a last reconcile
+	EDSHeld bool             `json:"edsHeld,omitempty"` // the ExtendedDaemonSet itself is being deleted and held by a finalizer: its status is still maintained
 }
 
 var c14Reasons = []string{"CrashLoopBackOff", "ImagePullBackOff", "ErrImagePull", "CreateContainerConfigError", "StartSlow", "Unknown", ""}
@@ -79,6 +80,7 @@ func genC14Inject(r *rand.Rand, tier string, idx int) *World {
 	if chance(r, 0.25) {
 		cs.Held = pick(r, "A", "B", "C")
 	}
+	cs.EDSHeld = chance(r, 0.1)
 	if cs.RS["B"].Paused == "True" && chance(r, 0.5) {
 		cs.Flip = pick(r, c14Reasons[:6]...)
 	}
@@ -132,6 +134,15 @@ func bodyC14Inject(s *Sim) {
 	}
 	for _, k := range sortedKeys(cs.Ann) {
 		s.userAnnotate(def.NS, def.Name, k, cs.Ann[k])
+	}
+	if cs.EDSHeld {
+		if e := s.Store.GetEDS(def.NS, def.Name); e != nil {
+			dt := metav1.NewTime(now)
+			e.DeletionTimestamp = &dt
+			e.Finalizers = append(e.Finalizers, "example.com/hold")
+			s.Store.ForceUpdate(e)
+			s.Stats.NonVacuous["C14.terminating-eds"]++
+		}
 	}
 	s.phase = "body"
 	for i := 0; i < cs.Syncs; i++ {
